@@ -110,6 +110,22 @@ E3_NOTE = "real gossipsub::Behaviour and real wire codec (frames cross the simul
 BUILT["C27"] = ("E3", "exploration", "deterministic simulation: 3-7 real gossipsub behaviours on a simulated lossy/partitioning network with per-link FIFO queues, seeded publish/subscribe/link operations; delivery-history oracles",
   "Per run: random topology, subscriptions, publishes (signed/author/anonymous modes, flood_publish on/off), link stalls, disconnects and heals, duplicated frames; oracles: no application-level duplicate delivery, never forwarded to propagation source or the original publisher, only subscribed topics delivered, and after faults stop every subscriber in the connected subscriber subgraph receives each surviving message within a bounded number of heartbeats",
   E3_NOTE, "5/C27")
+E3S = "deterministic simulation: one real gossipsub Behaviour, scripted peers speaking wire frames through the real codec, virtual-clock heartbeats; seeded operation sequences; reference model compared after every step"
+BUILT["C28"] = ("E3", "exploration", E3S,
+  "Seeded sequences of connects (all protocol kinds, 1-2 connections), SUBSCRIBE/GRAFT/PRUNE RPCs, local subscribe/unsubscribe/publish, scores, explicit peers, heartbeats: every mesh member connected+gossipsub+tracked+not explicit; entering peers not backed off / negative / explicit; GRAFT to a full mesh, in backoff or with negative score refused with PRUNE",
+  E3_NOTE, "5/C28")
+BUILT["C29"] = ("E3", "exploration", E3S,
+  "Same runs: JoinedMesh/LeftMesh notifications folded per connection; after every step some live connection believes 'in mesh' iff the peer is in at least one mesh (second connections, closing the notified connection, unsubscribe, prune, disconnect, heartbeat grafts)",
+  E3_NOTE, "5/C29")
+BUILT["C32"] = ("E3", "exploration", E3S + "; plus the real BackoffStorage alone under random update/heartbeat/late-heartbeat/time sequences",
+  "Model expiry = max over all updates of now+duration (sent PRUNE backoff, received PRUNE backoff or default): nothing enters a mesh and no GRAFT is accepted before expiry, early GRAFTs are pruned and penalised, and every pair is forgotten after expiry + slack + one wheel rotation of heartbeats",
+  E3_NOTE, "5/C32")
+BUILT["C35"] = ("E3", "exploration", E3S,
+  "Same runs with flood_publish off in 2/3: in every non-heartbeat step each fanout peer that is still connected, tracked as subscribed and scored >= 0 remains in the fanout set (publishing only adds)",
+  E3_NOTE, "5/C35")
+BUILT["C36"] = ("E3", "exploration", E3S,
+  "AllowAll / Whitelist / MaxCount(AllowAll) / MaxCount(Whitelist) / Combined(Whitelist,Callback) filters with drawn limits: tracked topics always within the filter's allowed set and max_subscribed_topics; each SUBSCRIBE/UNSUBSCRIBE request applied exactly as the reference filter (rejected requests change nothing); GRAFT-implied subscriptions obey the filter",
+  E3_NOTE, "5/C36")
 NOT_YET = {}
 
 def main():
